@@ -44,6 +44,9 @@ func (d *DBFT[H]) sendPrepareRequest(force bool) {
 
 	d.PreparationPayloads[d.MyIndex] = msg
 	d.broadcast(msg)
+	// Responses (and commits) received before our own request was made
+	// could not be checked against it, do it now.
+	d.updateExistingPayloads(msg)
 
 	d.prepareSentTime = d.Timer.Now()
 
